@@ -162,6 +162,12 @@ Observe(i) ==
          any |-> listing(ANY), stream |-> listing(STREAM), block |-> listing(BLOCK), nonempty |-> listing(NONEMPTY),
          loc |-> SetToSeq({<<t, LocateIn(L.bl, t)>> : t \in LocTargetsOf(i, RangeOf(bls))})]
 
+\* the getters only (families whose indexes are too big for the complete observation at every plan)
+ObserveLite(i) ==
+    [lite |-> TRUE, streams |-> Len(i.streams), blocks |-> BlockCount(i), size |-> SizeI(i), total |-> TotalSize(i),
+     ssize |-> StreamSizeI(i), fsize |-> FileSize(i), usize |-> USizeI(i), checks |-> Mask(ChecksI(i)),
+     mem |-> MemUsage(Len(i.streams), BlockCount(i))]
+
 ----------------------------------------------------------------------------
 (* Part 2: the operations as index.c performs them (list level)              *)
 
